@@ -196,6 +196,9 @@ def _reparse_raw_stmtlike(self: fst.FST, new_lines: list[str], ln: int, col: int
     first_lineno = 0  # this indicates not to apply the first column delta, will only be set if we need that action because we possibly erased multi-byte characters on the first line before the reparse node
     first_line_col_delta = lines[pln].c2b(pcol) - pcol
 
+    if stmtlike is root and (ln, col) < (pln, pcol):  # change in what comes before a root statementlike (comments, empty lines), that is not part of what gets reparsed below
+        raise _ReparseAll
+
     if in_blkhead := (
         stmtlikea.__class__ in ASTS_LEAF_BLOCK
         and (blkhead_end := stmtlike._loc_block_header_end()[2:]) > (end_ln, end_col + 1)
